@@ -50,6 +50,9 @@ fn dim_forms(d: usize, tier: Tier) -> Vec<Ix> {
   let mut v = vec![Ix::S(1), Ix::S(d), Ix::S(d + 1), Ix::S(0), Ix::All, Ix::R(1, d, true), Ix::R(1, d + 1, true)];
   if d >= 2 { v.push(Ix::V(vec![1, d])); v.push(Ix::V(vec![d, 1])); v.push(Ix::R(2, d, true)); }
   v.push(Ix::V(vec![1, d + 1]));
+  // an invalid position after, and between, valid ones (the statement must fail before anything is written)
+  v.push(Ix::V(vec![1, 0]));
+  if d >= 2 { v.push(Ix::V(vec![1, d + 1, 2])); }
   v.push(Ix::M((0..d as usize).map(|i| i % 2 == 0).collect()));
   v.push(Ix::M((0..d as usize + 1).map(|i| i % 2 == 0).collect()));
   if tier == Tier::Thorough {
@@ -68,6 +71,7 @@ fn lin_forms(n: usize, tier: Tier) -> Vec<Ix> {
     Ix::M((0..n as usize).map(|i| i % 2 == 0).collect()), Ix::M((0..n as usize).map(|i| i == 0).collect()), Ix::M(vec![true; n as usize]),
     Ix::M((0..n as usize + 1).map(|i| i % 2 == 0).collect())];
   if n >= 2 { v.push(Ix::M((0..n as usize - 1).map(|i| i % 2 == 0).collect())); }
+  v.push(Ix::V(vec![1, 0])); v.push(Ix::V(vec![1, n + 1, 2])); v.push(Ix::V(vec![2, 0, 1]));
   if tier == Tier::Thorough { v.push(Ix::V(vec![1, 2, n])); v.push(Ix::V(vec![n, 2, 1])); v.push(Ix::M((0..n as usize).map(|i| i % 2 == 1).collect())); v.push(Ix::M(vec![false; n as usize])); }
   v
 }
